@@ -465,7 +465,38 @@ def gen_C06():
     hi = tr.expr(_nth_assigned(fn, "interval_upper", "np.maximum"))
     out.append(lean_def("straddle_lower", [("lo", "Rat"), ("pred", "Rat")], "Rat", "  " + lo))
     out.append(lean_def("straddle_upper", [("hi", "Rat"), ("pred", "Rat")], "Rat", "  " + hi))
-    return out + _boot_agg_defs() + _nonreporting_bounds_defs() + _clip_stage_defs()
+    return out + _boot_agg_defs() + _nonreporting_bounds_defs() + _clip_stage_defs() + _epsilon_defs()
+
+
+def _epsilon_defs():
+    """BootstrapElectionModel._estimate_epsilon / _estimate_delta: least squares against the contest indicator, the masked reset of
+    small contests (mask translated: `count < k` with the source's k, value assigned), and the subtraction that defines delta"""
+    src, tree = _parse("models/BootstrapElectionModel.py")
+    fe = _find(tree, "BootstrapElectionModel", "_estimate_epsilon")
+    stmts = [st for st in fe.body if not (isinstance(st, ast.Expr) and isinstance(st.value, ast.Constant))]
+    if len(stmts) != 3 or not isinstance(stmts[2], ast.Return) or ast.unparse(stmts[2].value) != "epsilon_hat":
+        raise TranslateError("_estimate_epsilon: expected lstsq, masked reset, return")
+    fit, reset = stmts[0], stmts[1]
+    if ast.unparse(fit.value) != "np.linalg.lstsq(aggregate_indicator, residuals)":
+        raise TranslateError("_estimate_epsilon: " + ast.unparse(fit.value))
+    if not (isinstance(reset, ast.Assign) and isinstance(reset.targets[0], ast.Subscript) and ast.unparse(reset.targets[0].value) == "epsilon_hat"):
+        raise TranslateError("_estimate_epsilon: masked reset")
+    tr = Tr(src, {"aggregate_indicator.sum(axis=0)": "count"})
+    out = [lean_def("epsilon_reset_mask", [("count", "Rat")], "Bool", "  " + tr.expr(reset.targets[0].slice)),
+           lean_def("epsilon_reset_value", [], "Rat", "  " + tr.expr(reset.value)).replace("epsilon_reset_value  :", "epsilon_reset_value :")]
+    fd = _find(tree, "BootstrapElectionModel", "_estimate_delta")
+    ret = [st for st in fd.body if isinstance(st, ast.Return)]
+    tr2 = Tr(src, {"residuals": "r", "aggregate_indicator @ epsilon_hat": "eps"})
+    val = ret[0].value
+    if isinstance(val, ast.Call) and isinstance(val.func, ast.Attribute) and val.func.attr == "flatten":
+        val = val.func.value
+    out.append(lean_def("delta_of", [("r", "Rat"), ("eps", "Rat")], "Rat", "  " + tr2.expr(val)))
+    # the stratum distributions: how np.interp is called
+    fs = _find(tree, "BootstrapElectionModel", "_estimate_strata_dist")
+    lambdas = [ast.unparse(n.body) for n in ast.walk(fs) if isinstance(n, ast.Lambda)]
+    creators = [ast.unparse(n) for n in ast.walk(fs) if isinstance(n, ast.Call) and ast.unparse(n.func) in ("ppf_creator", "cdf_creator")]
+    out.append(_strlist("strata_interp", lambdas + creators))
+    return out
 
 
 class _BoundsFlow(NFlow):
